@@ -19,9 +19,15 @@ Part A  binary format, EVERY environment (table, constants):
                                        varints, the layout the relaxation chooses)
   canon_unique                FULL     two canonical encodings of one program are equal
   canonical_canon             FULL     `Canonical bs` (read off the decoder's walk) + decode bs = (v, is) ⇒ Canon bs v is
-  encode_decode_canonical     PARTIAL  decode bs = (v, is), canonical bs, encode is = ok bs' ⇒ bs' = bs. Missing for the full
-                                       statement (`EncodeTotalOnCheckedStatement`): that `encode` SUCCEEDS on what a program
-                                       passing the static check decodes to (the version rules of resolveLabels).
+  encode_decode_canonical     FULL     decode bs = (v, is), canonical bs, encode is = ok bs' ⇒ bs' = bs
+  encode_total_canonical      FULL     decode bs = (v, is), canonical bs, the version rules of resolveLabels hold for `is`
+                                       (`VersionRules`: no branch to the end in v0/v1, no back reference before v4) ⇒
+                                       encode is = ok bs: the back end ACCEPTS what canonical bytes decode to.
+                                       Left open (`CheckedObeysRulesStatement`): that passing the static check implies
+                                       `VersionRules` (an inversion of the check's walk).
+  assembled_checks            FULL     second sentence of the property: what the front end accepts assembles to a program that
+                                       passes `staticCheck` in every run mode allowing all its opcodes, for tables whose Size
+                                       column is the emitted length and whose field-cost immediates have a cost
   branch_targets_resolve      FULL     assembled offsets fit their encodings and land on instruction starts / the end
 Part B  token level, every environment satisfying the finite table facts `TokFacts`:
   parsed_wf                   FULL     what the front end accepts is well formed (Part A applies)
@@ -30,15 +36,18 @@ Part B  token level, every environment satisfying the finite table facts `TokFac
 Part C  today's tables (finite checks by kernel evaluation over Gen.OpTable / Gen.AsmTable):
   genFacts                    FULL     `TokFacts genEnv v` for every version v ≤ LogicVersion
   gen_asm_dis_asm             FULL     asm ∘ dis ∘ asm = asm for today's assembler tables
-  gen_encode_decode_canonical PARTIAL  as encode_decode_canonical, table hypotheses discharged
-Not proved (statements kept below): `AssembledChecksStatement` (assembled programs pass the static check — checked on the
-real code and against `staticCheck` on every run), `EncodeTotalOnCheckedStatement`.
+  gen_encode_decode_canonical FULL     as encode_decode_canonical, table hypotheses discharged
+  gen_assembled_checks        FULL     assembled_checks for today's tables, both table hypotheses discharged by finite checks
+Not proved (statement kept below): `CheckedObeysRulesStatement`. `staticCheck` itself is tied to the real
+CheckSignature / CheckContract by the correspondence on every run (not by proof).
 Scope of Part B: sources at TOKEN level without the pseudo-ops int / byte / addr / method (the model answers `unmodelled`
 for them, so `asm … = ok` excludes them; in particular no mixing of pseudo-op constants with an explicit intc / bytec N ≥ 4,
 the recorded known finding), under the constant-definedness rule "any block seen" (`TokFacts.rule`).
 -/
 import AlgoVerif.Model.AsmFormat
 import AlgoVerif.Lemmas.AsmFormatTable
+import AlgoVerif.Lemmas.AsmFormatCheck
+import AlgoVerif.Lemmas.AsmFormatTotal
 namespace Props.C33
 open Model.OpTables Model.AsmFormat Lemmas.AsmFormat
 
@@ -266,19 +275,112 @@ theorem encode_decode_canonical (env : Env) (bs bs' : Bytes) (v : Nat) (is : Lis
       exact decoded_instrsOK (fun r hr => ⟨(oks r hr).2.elim (fun next hn => hreg _ next _ hn), (oks r hr).1⟩) h4 h3
   exact canon_unique env bs' bs v is (encode_canon env v is bs' hW hwf he) hcan
 
-/-- NOT PROVED (full statement of the second half of `encode_decode_canonical`): a canonical program that passes the static
-    check in some run mode is accepted by the assembler's back end. -/
-def EncodeTotalOnCheckedStatement (env : Env) : Prop :=
-  ∀ bs v is mode minv, IsBytes bs → Canonical env bs → decode env bs = .ok (v, is) →
-    staticCheck env mode minv bs = .ok → encode env v is = .ok bs
+/-- the version rules of resolveLabels, on label indices: no branch to the end of the program in v0/v1, no back reference
+    (target at or before the referring instruction) before the back-branch version -/
+def VersionRules (v bb : Nat) (is : List Instr) : Prop :=
+  ∀ (k : Nat) (i : Instr), is[k]? = some i → ∀ t ∈ i.imms.flatMap immTargets,
+    ¬ (v ≤ 1 ∧ t = is.length) ∧ ¬ (v < bb ∧ t ≤ k)
 
-/-- NOT PROVED (second sentence of the property): programs the assembler accepts pass the static check of their version in
-    a run mode that allows all their opcodes, when no field-cost immediate is a field without a cost. The harness checks it
-    on the real code for every assembled program, and `staticCheck` against the real check on every line. -/
-def AssembledChecksStatement (env : Env) : Prop :=
-  ∀ v src is bs mode, v ≤ env.protoVersion → parseProg env v src = .ok is → encode env v is = .ok bs →
-    (∀ i ∈ is, allows i.spec.modes mode = true) → (∀ i ∈ is, ∀ b, i.imms = [.byte b] → costOkFor env i.spec [b] = true) →
-    staticCheck env mode 0 bs = .ok
+/-- a varint label is the only immediate of its instruction (all branch ops) -/
+def BranchShape (is : List Instr) : Prop :=
+  ∀ i ∈ is, ∀ t, Model.AsmFormat.Imm.vlabel t ∈ i.imms → i.imms = [.vlabel t]
+
+/-- FULL (`encode_total_canonical`). The assembler's back end ACCEPTS what canonical bytes decode to, and reproduces
+    exactly those bytes, whenever the decoded program obeys the version rules of resolveLabels: with this,
+    `encode (decode bs) = bs` for canonical `bs` needs no assumption about `encode` succeeding. -/
+theorem encode_total_canonical (env : Env) (bs : Bytes) (v : Nat) (is : List Instr) (hb : IsBytes bs)
+    (hl : LookSound (env.look v)) (hc : Canonical env bs) (hd : decode env bs = .ok (v, is))
+    (hrules : VersionRules v env.backBranchVersion is) (hshape : BranchShape is) : encode env v is = .ok bs := by
+  obtain ⟨v', k, rs, is', xs, h1, hk, h2, h3, h4, h5, h6⟩ := hc
+  unfold decode at hd
+  simp only [h1] at hd
+  split at hd
+  · cases hd
+  · unfold decodeBody at hd
+    rw [h2] at hd
+    simp only [h3, Except.ok.injEq, Prod.mk.injEq] at hd
+    obtain ⟨rfl, rfl⟩ := hd
+    obtain ⟨e1, _⟩ := readU_inv bs 10 v' k hb h1
+    obtain ⟨e2, oks⟩ := decRaw_regs (env.look v') hl bs.length _ _ rs (isBytes_drop k hb) h2
+    obtain ⟨hfst, _⟩ := relax_ok _ _ _ h5
+    rw [map_fst_pair] at hfst
+    unfold unresolve at h3
+    have hS := startsFrom_pairwise 0 (rawSizes rs) (by
+      intro s hs
+      obtain ⟨q, _, rfl⟩ := List.mem_map.mp hs
+      exact length_encInstr_pos q)
+    have hlen1 : rs.length = xs.length := by
+      have := congrArg List.length h6
+      simpa [rawSizes, sizesOf] using this
+    have hlen2 : xs.length = is'.length := by rw [← hfst]; simp
+    have hres : resolve v' env.backBranchVersion xs = .ok rs := by
+      unfold resolve
+      have hSeq : startsOf xs = startsFrom 0 (rawSizes rs) := by unfold startsOf; rw [h6]
+      rw [hSeq, startsFrom_last, Nat.zero_add]
+      apply resolveGo_total hS (by rw [hfst]; exact h3) (fun r hr => (oks r hr).1) h4
+      · -- version rules
+        intro j i hi t ht d e he hdt
+        rw [hfst] at hi
+        obtain ⟨r1, r2⟩ := hrules j i hi t ht
+        simp only [Nat.zero_add] at he
+        have hn := startsFrom_get (rawSizes rs) 0 (rawSizes rs).length (Nat.le_refl _)
+        rw [List.take_length, Nat.zero_add] at hn
+        obtain ⟨htl, htd⟩ := getElem?_some_iff.mp hdt
+        refine ⟨?_, ?_⟩
+        · rintro ⟨hv1, hdtot⟩
+          apply r1
+          refine ⟨hv1, ?_⟩
+          obtain ⟨hnl, hnd⟩ := getElem?_some_iff.mp hn
+          have : t = (rawSizes rs).length := by
+            rcases Nat.lt_trichotomy t (rawSizes rs).length with h' | h' | h'
+            · have := pairwise_lt_get hS htl hnl h'; omega
+            · exact h'
+            · have := pairwise_lt_get hS hnl htl h'; omega
+          rw [this]; simp [rawSizes]; omega
+        · rintro ⟨hvb, hde⟩
+          apply r2
+          refine ⟨hvb, ?_⟩
+          obtain ⟨hel, hed⟩ := getElem?_some_iff.mp he
+          have := pairwise_lt_idx hS htl hel (by rw [htd, hed]; exact hde)
+          omega
+      · -- placeholder widths
+        intro j r x hr hx o w' hmem
+        obtain ⟨i, p, e, hi, hspec, hp, he, hun⟩ := unresolveGo_rel h3 j r hr
+        obtain ⟨hlen, hvl⟩ := unresolveImms_voff hun
+        obtain ⟨t, ht⟩ := hvl o w' hmem
+        have him : i ∈ is' := List.mem_of_getElem? hi
+        have hsh := hshape i him t ht
+        have hx1 : x.1 = i := by
+          have : (xs.map (·.1))[j]? = some x.1 := by simp [hx]
+          rw [hfst, hi] at this
+          simp only [Option.some.injEq] at this
+          exact this.symm
+        have hr1 : r.imms = [.voff o w'] := by
+          rw [hsh] at hlen
+          match hri : r.imms, hlen, hmem with
+          | [q], _, hmem' =>
+            simp only [List.mem_singleton] at hmem'
+            rw [hmem']
+        have hsz : (rawSizes rs)[j]? = (sizesOf xs)[j]? := by rw [h6]
+        simp only [rawSizes, sizesOf, List.getElem?_map, hr, hx, Option.map_some, Option.some.injEq] at hsz
+        rw [length_encInstr, hr1, hx1] at hsz
+        unfold instrSize at hsz
+        rw [hsh, ← hspec] at hsz
+        simp only [List.flatMap_cons, List.flatMap_nil, List.append_nil, encImm, length_uvarintW, List.map_cons,
+          List.map_nil, immSize, listSum] at hsz
+        omega
+    unfold encode encodeBody
+    rw [h5]
+    simp only [hres]
+    rw [e2, show uvarint v' = uvarintW (uvarLen v') v' from rfl, ← hk, ← e1]
+
+/-- NOT PROVED (what is left of the second half of `encode_decode_canonical`): a program that passes the static check obeys
+    the version rules of resolveLabels (an inversion of the check's walk; needs the table fact that label-list and
+    varint-label ops exist only from the back-branch version on). With it, `encode_total_canonical` gives
+    `encode (decode bs) = bs` for every canonical program that passes the static check. -/
+def CheckedObeysRulesStatement (env : Env) : Prop :=
+  ∀ bs v is mode minv, decode env bs = .ok (v, is) → staticCheck env mode minv bs = .ok →
+    VersionRules v env.backBranchVersion is
 
 /-! ## Part B — the token level: asm ∘ dis ∘ asm = asm -/
 
@@ -334,6 +436,142 @@ theorem dis_asm_dis (env : Env) (v : Nat) (src : List Stmt) (is : List Instr) (b
     ∃ stmts bs', dis env bs = .ok (v, stmts) ∧ asm env v stmts = .ok bs' ∧ dis env bs' = .ok (v, stmts) := by
   obtain ⟨stmts, h1, h2⟩ := asm_dis_asm env v src is bs f hp hs he
   exact ⟨stmts, bs, h1, h2, h1⟩
+
+/-! ### assembled programs pass the static check -/
+
+/-- the field immediate of an op whose static cost depends on it names a field with a positive cost (the static check
+    rejects "non-positive cost"); `True` for every other op -/
+def CostOKI (env : Env) (i : Instr) : Prop :=
+  match env.costOk.find? (fun p => p.1 = i.spec.id) with
+  | none => True
+  | some q => ∃ b, i.imms = [.byte b] ∧ i.spec.sub = 0 ∧ q.2.contains b = true
+
+/-- FULL (`assembled_checks`, the second sentence of the property). A token-level source the assembler accepts assembles to a
+    program that passes the static check of its version, in every run mode that allows all its opcodes — for every
+    environment whose tables satisfy `TokFacts`, whose `Size` column is the emitted length (`SizeFixed`) and whose
+    field-cost immediates have a cost (`CostOKI`); both are discharged for today's tables in `gen_assembled_checks`. -/
+theorem assembled_checks (env : Env) (v mode : Nat) (src : List Stmt) (is : List Instr) (bs : Bytes) (f : TokFacts env v)
+    (hv : v ≤ env.protoVersion) (hp : parseProg env v src = .ok is) (hs : SmallProg is) (he : encode env v is = .ok bs)
+    (hmode : ∀ i ∈ is, allows i.spec.modes mode = true) (hsize : ∀ i ∈ is, SizeFixed i.spec)
+    (hcost : ∀ i ∈ is, CostOKI env i) : staticCheck env mode 0 bs = .ok := by
+  obtain ⟨hinv, hlv⟩ := parseProg_inv f.groups f.rule hp
+  have hwf := parsed_wf env v src is f hp hs
+  unfold encode at he
+  cases hb : encodeBody env v is with
+  | error x => simp [hb] at he
+  | ok body =>
+    simp only [hb, Except.ok.injEq] at he; subst he
+    unfold encodeBody at hb
+    cases h1 : relax (env.initWidth * is.length + 1) (is.map (fun i => (i, env.initWidth))) with
+    | error x => simp [h1] at hb
+    | ok xs =>
+      simp only [h1] at hb
+      cases h2 : resolve v env.backBranchVersion xs with
+      | error x => simp [h2] at hb
+      | ok rs =>
+        simp only [h2, Except.ok.injEq] at hb; subst hb
+        obtain ⟨hfst, hle⟩ := relax_ok _ _ _ h1
+        rw [map_fst_pair] at hfst
+        have hx : ∀ x ∈ xs, InstrOK (env.look v) x.1 ∧ x.2 ≤ 9 := by
+          intro x hx
+          refine ⟨hwf x.1 (by rw [← hfst]; exact List.mem_map_of_mem hx), ?_⟩
+          have := hle env.initWidth (by intro y hy; obtain ⟨i, _, rfl⟩ := List.mem_map.mp hy; exact Nat.le_refl _) x hx
+          have := f.width
+          omega
+        obtain ⟨a, c, d, e⟩ := resolve_ok (look := env.look v) hx h2
+        rw [hfst] at d
+        unfold unresolve at d
+        unfold resolve at h2
+        have hSeq : startsOf xs = startsFrom 0 (rawSizes rs) := by unfold startsOf; rw [e]
+        rw [hSeq, startsFrom_last, Nat.zero_add] at h2
+        have hlenraw : (encRaw rs).length = listSum (rawSizes rs) := by
+          unfold encRaw rawSizes; exact length_flatMap_listSum _ _
+        have hv64 : v < two64 := by have := f.lv64; omega
+        unfold staticCheck
+        rw [show uvarint v = uvarintW (uvarLen v) v from rfl, readU_uvarintW _ 10 v _ (uvOK_min v hv64)]
+        simp only []
+        rw [if_neg (by omega), List.drop_left' (length_uvarintW _ _)]
+        have hplen : (uvarintW (uvarLen v) v ++ encRaw rs).length = uvarLen v + listSum (rawSizes rs) := by
+          rw [List.length_append, length_uvarintW, hlenraw]
+        have key := checkGo_ok (env := env) (v := v) (mode := mode) (h := uvarLen v) (rs := rs)
+          (startsFrom 0 (rawSizes rs)) rfl _ hplen ?_ rs 0 {} (uvarintW (uvarLen v) v ++ encRaw rs).length
+          (by simp) (by intro j hj; omega) (by intro x hx; simp at hx) (by rw [List.length_append]; omega) 0
+          (by simpa [listSum] using startsFrom_get (rawSizes rs) 0 0 (Nat.zero_le _))
+        · simpa using key
+        · -- every raw instruction is `Good`
+          intro j r hr
+          have hrm : r ∈ rs := List.mem_of_getElem? hr
+          obtain ⟨i, p, e', hi, hspec, hp', he', hun⟩ := unresolveGo_rel d j r hr
+          obtain ⟨e'', he'', hver⟩ := resolveGo_version h2 j r hr
+          simp only [Nat.zero_add] at hp' he' he''
+          rw [he'] at he''
+          simp only [Option.some.injEq] at he''
+          subst he''
+          have him : i ∈ is := List.mem_of_getElem? hi
+          obtain ⟨_, _, himm, _, _⟩ := hinv.1 i him
+          obtain ⟨r1, r2, r3⟩ := unresolveImms_rel hun
+          refine ⟨a r hrm, ?_, by rw [← hspec]; exact hmode i him, size_of_fixed (by rw [← hspec]; exact hsize i him) (a r hrm),
+            ?_, ?_, p, e', hp', he', ?_⟩
+          · intro im hmem
+            have h1' := c r hrm im hmem
+            have h2' := length_encInstr_le_encRaw hrm
+            rw [hplen, ← hlenraw]; omega
+          · -- cost
+            intro rest
+            have hc := hcost i him
+            unfold CostOKI at hc
+            unfold costOkFor
+            rw [← hspec]
+            cases hf : env.costOk.find? (fun p => p.1 = i.spec.id) with
+            | none => rfl
+            | some q =>
+              simp only [hf] at hc
+              obtain ⟨b, hb1, hb2, hb3⟩ := hc
+              have hr3 := r3 b hb1
+              have hsub : (if ¬ i.spec.sub = 0 then [i.spec.sub] else []) = ([] : Bytes) := by rw [if_neg (by omega)]
+              simp only [hr3, subBytes, ne_eq, hsub, List.flatMap_cons, encImm, List.flatMap_nil, List.nil_append,
+                List.append_nil, List.cons_append]
+              exact hb3
+          · -- byte-string limits
+            apply itemsOk_of
+            intro cw bss hmem q hq
+            have := immsInv_bytess _ _ himm _ (r2 cw bss hmem) q.2 (List.mem_map_of_mem hq)
+            exact this
+          · -- branch rules
+            intro im hmem
+            have ht := r1 im hmem
+            have hvr := hver im hmem
+            have hmemS : ∀ x, x ∈ startsFrom 0 (rawSizes rs) → x ≤ listSum (rawSizes rs) := by
+              intro x hx; have := startsFrom_le_total _ 0 x hx; omega
+            cases im with
+            | off2 o =>
+              obtain ⟨t1, t2⟩ := ht
+              obtain ⟨v1, v2⟩ := hvr
+              have hcast : (((uvarLen v + e' : Nat) : Int) + o).toNat = uvarLen v + ((e' : Int) + o).toNat := by omega
+              refine ⟨v1, by omega, ⟨_, t2, hcast⟩, ?_⟩
+              intro hv1
+              have := v2 hv1
+              have := hmemS _ t2
+              rw [hcast, hplen]; omega
+            | offs os =>
+              intro o ho
+              obtain ⟨t1, t2⟩ := ht o ho
+              have hcast : (((uvarLen v + e' : Nat) : Int) + o).toNat = uvarLen v + ((e' : Int) + o).toNat := by omega
+              exact ⟨by omega, ⟨_, t2, hcast⟩⟩
+            | voff o w =>
+              obtain ⟨t1, t2⟩ := ht
+              by_cases ho : o < 0
+              · simp only [TgtOK, if_pos ho] at t1 t2 ⊢
+                have hcast : (((uvarLen v + p : Nat) : Int) + o).toNat = uvarLen v + ((p : Int) + o).toNat := by omega
+                exact ⟨by omega, ⟨_, t2, hcast⟩⟩
+              · simp only [TgtOK, if_neg ho] at t1 t2 ⊢
+                have hcast : (((uvarLen v + e' : Nat) : Int) + o).toNat = uvarLen v + ((e' : Int) + o).toNat := by omega
+                exact ⟨by omega, ⟨_, t2, hcast⟩⟩
+            | byte b => trivial
+            | uint x y => trivial
+            | bytes x y => trivial
+            | ints x y => trivial
+            | bytess x y => trivial
 
 /-! ### label / branch lemmas -/
 
@@ -407,6 +645,114 @@ theorem gen_encode_decode_canonical (bs bs' : Bytes) (v : Nat) (is : List Instr)
           show v' ≤ genEnv.logicVersion
           omega
   exact encode_decode_canonical genEnv bs bs' v is (by decide) hb (gen_lookSound v) (gen_lookReg v hv) hc hd he
+
+/-! ### assembled programs pass the static check: the two table facts, and the theorem for today's tables -/
+
+def sizeFixedB (s : Spec) : Bool :=
+  s.size == 0 || ((kindsOf s).all (fun k => k == 0 || k == 1 || k == 2) &&
+    s.size == 1 + (subBytes s).length + listSum ((kindsOf s).map (fun k => if k = 2 then 2 else 1)))
+
+theorem sizeFixed_of_B {s : Spec} (h : sizeFixedB s = true) : SizeFixed s := by
+  unfold sizeFixedB at h
+  simp only [Bool.or_eq_true, Bool.and_eq_true, beq_iff_eq, List.all_eq_true] at h
+  rcases h with h | ⟨h1, h2⟩
+  · exact Or.inl h
+  · exact Or.inr ⟨fun k hk => by have := h1 k hk; omega, h2⟩
+
+/-- every field a field-cost op can be assembled with has a cost -/
+def costRowB (env : Env) (r : Spec) : Bool :=
+  match env.costOk.find? (fun p => p.1 = r.id) with
+  | none => true
+  | some q =>
+    r.sub == 0 &&
+    (match r.imms with
+     | [im] => im.kind == 0 && im.declGroup != "" &&
+        (match groupOf env im.declGroup with
+         | some g => g.fields.all (fun fr => fr.name == "" || q.2.contains fr.idx)
+         | none => false)
+     | _ => false)
+
+set_option maxRecDepth 100000 in
+theorem gen_sizes : opSpecs.all sizeFixedB = true := by decide +kernel
+
+set_option maxRecDepth 100000 in
+theorem gen_costs : opSpecs.all (costRowB genEnv) = true := by decide +kernel
+
+theorem gen_row_of {v : Nat} {i : Instr} (hi : InstrInv genEnv v i) :
+    ∃ r ∈ opSpecs, i.spec.id = r.id ∧ i.spec.sub = r.sub ∧ i.spec.imms = r.imms ∧ i.spec.size = r.size := by
+  obtain ⟨r, hr, _, hs⟩ := byName_mem hi.1
+  refine ⟨r, hr, ?_, ?_, ?_, ?_⟩ <;> (rw [hs]; split <;> rfl)
+
+theorem gen_sizeFixed {v : Nat} {i : Instr} (hi : InstrInv genEnv v i) : SizeFixed i.spec := by
+  obtain ⟨r, hr, _, h2, h3, h4⟩ := gen_row_of hi
+  have := sizeFixed_of_B (List.all_eq_true.mp gen_sizes r hr)
+  unfold SizeFixed kindsOf subBytes at this ⊢
+  rw [h2, h3, h4]; exact this
+
+theorem gen_costOK {v : Nat} {i : Instr} (hi : InstrInv genEnv v i) : CostOKI genEnv i := by
+  obtain ⟨r, hr, h1, h2, h3, _⟩ := gen_row_of hi
+  have hrow := List.all_eq_true.mp gen_costs r hr
+  unfold CostOKI
+  unfold costRowB at hrow
+  rw [h1]
+  cases hf : genEnv.costOk.find? (fun p => p.1 = r.id) with
+  | none => trivial
+  | some q =>
+    simp only [hf] at hrow ⊢
+    simp only [Bool.and_eq_true, beq_iff_eq] at hrow
+    obtain ⟨hsub, hrest⟩ := hrow
+    have himm := hi.2.2.1
+    rw [h3] at himm
+    cases hims : r.imms with
+    | nil => simp [hims] at hrest
+    | cons im rest =>
+      cases rest with
+      | cons _ _ => simp [hims] at hrest
+      | nil =>
+        simp only [hims, Bool.and_eq_true, beq_iff_eq, bne_iff_ne, ne_eq] at hrest
+        obtain ⟨⟨hk, hg⟩, hgrp⟩ := hrest
+        rw [hims] at himm
+        cases hx : i.imms with
+        | nil => rw [hx] at himm; simp [ImmsInv] at himm
+        | cons x xs =>
+          rw [hx] at himm
+          obtain ⟨a1, _, a2⟩ := himm
+          cases xs with
+          | cons _ _ => simp [ImmsInv] at a2
+          | nil =>
+            cases x with
+            | byte b =>
+              simp only [ImmInv] at a1
+              rcases a1 with ⟨_, _, gd, ge, fr, fe, g1, g2, g3, g4, g5, _⟩ | ⟨_, hg', _⟩ | ⟨hk', _, _⟩
+              · refine ⟨b, rfl, by rw [h2]; exact hsub, ?_⟩
+                rw [g1] at hgrp
+                simp only [List.all_eq_true, Bool.or_eq_true, beq_iff_eq] at hgrp
+                have := hgrp fr (List.mem_of_getElem? g3)
+                rcases this with hn | hc
+                · exact absurd hn (fieldByName_name g4).2
+                · rw [g5] at hc; exact hc
+              · exact absurd hg' hg
+              · omega
+            | uint n => simp only [ImmInv] at a1; omega
+            | bytes bs => simp only [ImmInv] at a1; omega
+            | ints vs => simp only [ImmInv] at a1; omega
+            | bytess bss => simp only [ImmInv] at a1; omega
+            | label t => simp only [ImmInv] at a1; omega
+            | vlabel t => simp only [ImmInv] at a1; omega
+            | labels ts => simp only [ImmInv] at a1; omega
+
+/-- FULL for today's tables (second sentence of the property): a token-level source the assembler accepts assembles to a
+    program that passes the static check of its version in every run mode that allows all its opcodes (the harness
+    protocol supports every version: `protoVersion = logicVersion`). -/
+theorem gen_assembled_checks (v mode : Nat) (src : List Stmt) (is : List Instr) (bs : Bytes)
+    (hp : parseProg genEnv v src = .ok is) (hs : SmallProg is) (he : encode genEnv v is = .ok bs)
+    (hmode : ∀ i ∈ is, allows i.spec.modes mode = true) : staticCheck genEnv mode 0 bs = .ok := by
+  obtain ⟨hinv, hv⟩ := parseProg_inv gen_groupIdx (by decide) hp
+  have hpv : v ≤ genEnv.protoVersion := by
+    have h1 : genEnv.protoVersion = genEnv.logicVersion := by decide
+    omega
+  exact assembled_checks genEnv v mode src is bs (genFacts v hv) hpv hp hs he hmode
+    (fun i hi => gen_sizeFixed (hinv.1 i hi)) (fun i hi => gen_costOK (hinv.1 i hi))
 
 end Gen
 
@@ -483,6 +829,12 @@ example : ∀ i ∈ demoIs, OneV i := by
   intro i hi t ht
   have := List.all_eq_true.mp (List.all_eq_true.mp h i hi) _ ht
   simpa using this
+
+/-- the hypotheses of `gen_assembled_checks` are met by the demo program in signature mode -/
+example : staticCheck genEnv modeSig 0 demoBytes = .ok :=
+  gen_assembled_checks 13 modeSig demoSrc demoIs demoBytes demo_parse demo_small demo_encode (by
+    have h : demoIs.all (fun i => allows i.spec.modes modeSig) = true := by decide +kernel
+    exact fun i hi => List.all_eq_true.mp h i hi)
 
 end Examples
 
